@@ -430,8 +430,13 @@ pub fn sst_path(root: &Path, md: &SstMetadata) -> PathBuf {
 
 impl<'a> Harness<'a> {
     pub fn new(ctx: &'a Ctx, h: &History, probes: Probes) -> Result<Self, Fail> {
-        lsmtk::verif::set_step_mode(true);
         let root = ctx.fresh_dir("store");
+        Self::new_at(ctx, h, probes, root)
+    }
+
+    /// As `new`, on a given (possibly already populated) directory.
+    pub fn new_at(ctx: &'a Ctx, h: &History, probes: Probes, root: PathBuf) -> Result<Self, Fail> {
+        lsmtk::verif::set_step_mode(true);
         let universe = gens::universe(h.family, (h.nkeys as usize).max(1));
         let mut targets: Vec<Vec<u8>> = vec![];
         for k in universe.iter() {
@@ -565,6 +570,28 @@ impl<'a> Harness<'a> {
             }
         };
         Ok(Box::new(OwnedScan { cursor: Some(cursor), _lo: lo, _hi: hi }))
+    }
+
+    /// Every live key/value pair by a full forward scan.
+    pub fn full_scan(&self) -> Result<Vec<(Vec<u8>, Option<Vec<u8>>)>, String> {
+        let mut c = self.scan(&B::Unbounded, &B::Unbounded).map_err(|e| format!("{e:?}"))?;
+        Ok(walk(&mut c, true)?.into_iter().map(|e| (e.0, e.2)).collect())
+    }
+
+    /// One verifier pass without any oracle; back-off counts as success.
+    pub fn verifier_pass_raw(&self) -> Result<(), String> {
+        let opts = self.cfg.options(&self.root_str());
+        let mut v = LsmVerifier::open(opts).map_err(|e| format!("open: {e:?}"))?;
+        match v.verify() {
+            Ok(()) => Ok(()),
+            Err(e) if is_backoff(&e) => Ok(()),
+            Err(e) => Err(vcore::truncate(&format!("{e:?}"), 400)),
+        }
+    }
+
+    /// Open the store again after `close()`, without exclusions or oracles.
+    pub fn reopen_raw(&mut self) -> Result<(), Fail> {
+        self.open()
     }
 
     pub fn live_entries(&self, lo: &B, hi: &B) -> Vec<Entry> {
@@ -851,40 +878,29 @@ impl<'a> Harness<'a> {
 
     pub fn apply(&mut self, op: &Op) -> Result<(), Fail> {
         match op {
-            Op::Put { k, sz } => {
-                let key = self.key(*k);
-                let v = self.fresh_value(*sz);
-                self.kvs.as_ref().unwrap().put(&key, &v).map_err(|e| fail("op-error:put", format!("put failed: {e:?}")))?;
-                self.model.insert(key, Some(v));
-            }
-            Op::Del { k } => {
-                let key = self.key(*k);
-                self.kvs.as_ref().unwrap().del(&key).map_err(|e| fail("op-error:del", format!("del failed: {e:?}")))?;
-                self.model.insert(key, None);
-            }
-            Op::Batch { items } => {
-                let mut seen = BTreeSet::new();
-                let mut wb = WriteBatch::with_capacity(items.len());
-                let mut updates = vec![];
-                for (k, v) in items {
-                    let key = self.key(*k);
-                    if !seen.insert(key.clone()) {
-                        continue;
+            Op::Put { .. } | Op::Del { .. } | Op::Batch { .. } => {
+                let writes = write_set(&self.universe, &mut self.tag, op).unwrap();
+                let kvs = self.kvs.as_ref().unwrap();
+                match op {
+                    Op::Put { .. } => {
+                        let (k, v) = &writes[0];
+                        kvs.put(k, v.as_ref().unwrap()).map_err(|e| fail("op-error:put", format!("put failed: {e:?}")))?;
                     }
-                    match v {
-                        Some(sz) => {
-                            let val = self.fresh_value(*sz);
-                            wb.put(&key, &val);
-                            updates.push((key, Some(val)));
+                    Op::Del { .. } => {
+                        kvs.del(&writes[0].0).map_err(|e| fail("op-error:del", format!("del failed: {e:?}")))?;
+                    }
+                    _ => {
+                        let mut wb = WriteBatch::with_capacity(writes.len());
+                        for (k, v) in writes.iter() {
+                            match v {
+                                Some(v) => wb.put(k, v),
+                                None => wb.del(k),
+                            }
                         }
-                        None => {
-                            wb.del(&key);
-                            updates.push((key, None));
-                        }
+                        kvs.write(wb).map_err(|e| fail("op-error:batch", format!("batch failed: {e:?}")))?;
                     }
                 }
-                self.kvs.as_ref().unwrap().write(wb).map_err(|e| fail("op-error:batch", format!("batch failed: {e:?}")))?;
-                for (k, v) in updates {
+                for (k, v) in writes {
                     self.model.insert(k, v);
                 }
             }
@@ -1206,6 +1222,34 @@ impl Cursor for OwnedScan {
     }
     fn value(&self) -> Option<&[u8]> {
         self.cursor.as_ref().unwrap().value()
+    }
+}
+
+/// The key/value pairs a client write op puts into the store, with values tagged from `tag`
+/// exactly as the interpreter does (shared with the crash enumerator's expected-state model).
+/// `None` for ops that are not client writes.
+pub fn write_set(universe: &[Vec<u8>], tag: &mut u32, op: &Op) -> Option<Vec<(Vec<u8>, Option<Vec<u8>>)>> {
+    let key = |k: u16| universe[gens::sel(k, universe.len())].clone();
+    let mut fresh = |sz: u8| {
+        *tag += 1;
+        gens::value(*tag, sz)
+    };
+    match op {
+        Op::Put { k, sz } => Some(vec![(key(*k), Some(fresh(*sz)))]),
+        Op::Del { k } => Some(vec![(key(*k), None)]),
+        Op::Batch { items } => {
+            let mut seen = BTreeSet::new();
+            let mut out = vec![];
+            for (k, v) in items {
+                let key = key(*k);
+                if !seen.insert(key.clone()) {
+                    continue;
+                }
+                out.push((key, v.map(&mut fresh)));
+            }
+            Some(out)
+        }
+        _ => None,
     }
 }
 
